@@ -136,7 +136,8 @@ PROPS = {
     "C06": dict(
         rules=[R("borrow", "rule_borrow"), R("arith", "rule_arith"), R("arith", "rule_rem_zero"), R("arith", "rule_accum"),
                R("arith", "rule_num_wrap"), R("narrow", "rule_narrow"), R("narrow", "rule_vm_regs"),
-               R("narrow", "rule_cursor"), R("front", "rule_column_bytes"), R("strings", "rule_slice_tail")],
+               R("narrow", "rule_cursor"), R("front", "rule_column_bytes"), R("strings", "rule_slice_tail"),
+               R("narrow", "rule_stale_index")],
         clause="Panic families visible in code shape: a RefCell guard of a shared container held across re-entrant or "
                "aliasing code (R-BORROW); script-supplied i64 values reaching overflow-/zero-/shift-checked arithmetic "
                "with no dominating guard of the needed kind (R-ARITH, R-REM-ZERO); digit accumulators in input-driven "
@@ -145,7 +146,8 @@ PROPS = {
                "quantities are bounded (R-NARROW), and the VM does not add to a frame's register count in byte "
                "arithmetic (R-VM-REGS); an iterator cursor that can step past its input's length is compared with it "
                "before `len - cursor` (R-CURSOR); span columns are not used as byte offsets of str slices (R-COLUMN-BYTES), and a constant number of "
-               "bytes is cut off a string's end only after an ends_with test (R-SLICE-TAIL). Not decided: panic-freedom in general (unwrap/index sites justified by data "
+               "bytes is cut off a string's end only after an ends_with test (R-SLICE-TAIL); no panicking `[]` on a shared "
+               "container inside a loop that runs user callbacks (R-STALE-INDEX). Not decided: panic-freedom in general (unwrap/index sites justified by data "
                "invariants are out of scope and counted as undecided where met).",
         technique="guard live-range dataflow over MIR x whole-workspace call graph (CHA + callback-through-bounds "
                   "edges); Assert-terminator census with dominating-guard classification",
